@@ -17,6 +17,7 @@ META = {
 }
 META['explanation'] += ' R03.8 no object is released twice: free_recursive frees an object only after a set answered `first time` for it when it is taken from the work list (shared with R04.5); a work-list walk is left only when the list is empty.'
 META['explanation'] += ' R03.5 also: no read of an Object that may alias the target is reachable from a mutation of the target; what a work list is built with has been entered in the visited set when objects are tested as they are queued.'
+META['explanation'] += ' R03.9 the constant pool hands values out by value: a literal the program can change in place, or the caller can release, is copied by OpCode::Const; no other arm lets a pooled value out.'
 GCN = 'gc::GC::'
 
 
